@@ -20,12 +20,12 @@ pub open spec fn cap_ok(c: Cap) -> bool { true }
 pub open spec fn g_init<T>() -> G<T> { G { dn: dn_init(), up: up_init() } }
 #[verifier::external_body] pub fn fresh_heap() -> (h: Heap) ensures !h.alloc_taken && !h.alloc_end && !h.alloc_source_talkback { unimplemented!() }
 
-//@invpart safe @C17 handles are stored before they are used; counters stay in range
+//@invpart safe @C17,C04 handles are stored before they are used; counters stay in range
 //@invpart proto @C01 greeting, phases and flags agree
 //@invpart term @C02 at most one termination per link
-//@invpart data @C07 take: output is the n-prefix of the input
+//@invpart data @C07,C06 take: output is the n-prefix of the input
 //@invpart fwd @C05 upstream end / error reaches the sink
-//@invpart pull @C14 demand conservation: every sink Pull is carried upstream while items remain
+//@invpart pull @C14,C06 demand conservation: every sink Pull is carried upstream while items remain
 pub open spec fn inv_safe<T>(h: Heap, g: G<T>, c: Cap) -> bool {
     &&& (up_greeted(g.up.phase) ==> h.source_talkback is Some)
 }
